@@ -10,6 +10,7 @@ import (
 	"flag"
 	"fmt"
 	"os"
+	"runtime"
 	"strconv"
 	"time"
 
@@ -71,6 +72,7 @@ func main() {
 		if *deadline > 0 {
 			dl = time.Unix(*deadline, 0)
 		}
+		runtime.GOMAXPROCS(1) // one task runs at a time; hand-offs stay on one thread
 		core.WorkerMain(e, opt, *seed, *start, *stride, *count, *offset, dl, *progress)
 	case "replay":
 		if len(os.Args) < 3 {
